@@ -5,6 +5,7 @@ import (
 	"errors"
 	"fmt"
 	"io"
+	"strings"
 
 	"github.com/moorara/algo/grammar"
 	"github.com/moorara/algo/lexer"
@@ -62,6 +63,12 @@ type Lexer struct {
 // New creates a new lexical analyzer for the EBNF language.
 // EBNF (Extended Backus-Naur Form) is used to define context-free grammars and their corresponding languages.
 func New(filename string, src io.Reader) (*Lexer, error) {
+	// The input reader reports the end of input one character early (as soon as the last character has been read),
+	// and retracting that character does not bring it back. It also takes any short read for the end of input.
+	// Terminating the source with a newline, which is skipped like any other newline, and always reading full blocks
+	// ensures that no character of the source is ever lost.
+	src = fullReader{io.MultiReader(src, strings.NewReader("\n"))}
+
 	in, err := input.New(filename, src, bufferSize)
 	if err != nil {
 		return nil, err
@@ -70,6 +77,20 @@ func New(filename string, src io.Reader) (*Lexer, error) {
 	return &Lexer{
 		in: in,
 	}, nil
+}
+
+// fullReader reads from the underlying reader until the given buffer is full or the end of input is reached.
+type fullReader struct {
+	r io.Reader
+}
+
+func (f fullReader) Read(p []byte) (int, error) {
+	n, err := io.ReadFull(f.r, p)
+	if err == io.ErrUnexpectedEOF {
+		err = nil
+	}
+
+	return n, err
 }
 
 // NextToken scans the input stream until it recognizes a valid token, which it then returns.
